@@ -132,8 +132,8 @@ func c12R1(c *Ctx) {
 	c.c07WhoMay(R, "call Client.dial", c.CallSites(clientDial), map[string]string{"(*" + c07dc + ".Client).Exchange": "after BeforeAttempt"})
 	c.c07WhoMay(R, "call dohExchange", c.CallSites(doh), map[string]string{"(*" + c07dc + ".Client).Exchange": "after BeforeAttempt"})
 	c.c07WhoMay(R, "call Client.Exchange", c.CallSites(clientExch), map[string]string{
-		"(*" + c07dc + ".Client).Exchange":              "UDP→TCP fallback; BeforeAttempt inherited by the copied client",
-		"(*middleware/forwarder.Forwarder).ServeDNS":    "client literal with BeforeAttempt (below)",
+		"(*" + c07dc + ".Client).Exchange":               "UDP→TCP fallback; BeforeAttempt inherited by the copied client",
+		"(*middleware/forwarder.Forwarder).ServeDNS":     "client literal with BeforeAttempt (below)",
 		"(*middleware/failover.ResponseWriter).WriteMsg": "client literal with BeforeAttempt (below)",
 		"config.testIPv6Network":                         "startup IPv6 reachability probe, not in request scope",
 	})
@@ -765,7 +765,9 @@ func c12R4(c *Ctx) {
 			c07AtomTruthy("besteffort", call1(be)),
 			c07AtomTruthy("enforceerr", call1(enf)),
 			c07AtomTruthy("localerr", locCall),
-		}, func(v map[string]bool) bool { return !v["ctxerr"] && !v["besteffort"] && !v["enforceerr"] && !v["localerr"] },
+		}, func(v map[string]bool) bool {
+			return !v["ctxerr"] && !v["besteffort"] && !v["enforceerr"] && !v["localerr"]
+		},
 			"EffectiveError(ctx)==nil ∧ ¬IsBestEffortRecursionWork(ctx) ∧ RecursionWorkEnforcementError(ctx)==nil ∧ RequestLocalFailureForResponse(ctx,res)==nil")
 	}
 
@@ -803,9 +805,9 @@ func c12R5(c *Ctx) {
 	c.Doc(R, "call graph of middleware/... (static + function values + interface invokes by types.Implements): minus the ranked heads {Chain.Next, pipelineQueryer.Query, Resolver.resolve} the cyclic SCCs are exactly the tabled ones; intra-cycle calls of a head are tabled back-edges; each resolve call carries a recognised rank; heads/self-recursions check their bound; depth constants bounded")
 	g := c12BuildGraph(c, "middleware")
 	heads := map[string]string{
-		"(*middleware.Chain).Next":                   "ch.count strictly decreases (count-- before ServeDNS, return at count==0); bounded by the handler list",
-		"(*middleware.pipelineQueryer).Query":        "ctx depth counter: depth >= maxQueryerRecursion ⇒ ErrMaxRecursion; depth+1 handed on",
-		"(*middleware/resolver.Resolver).resolve":    "every re-entry carries a rank checked per call site (level++ ≤ labels, depth>0, nomin one-shot, error-count one-shot); fresh states only from the tabled entries; DS/DNSKEY ascent reaches a proper ancestor (semantic, ValidateSigner)",
+		"(*middleware.Chain).Next":                "ch.count strictly decreases (count-- before ServeDNS, return at count==0); bounded by the handler list",
+		"(*middleware.pipelineQueryer).Query":     "ctx depth counter: depth >= maxQueryerRecursion ⇒ ErrMaxRecursion; depth+1 handed on",
+		"(*middleware/resolver.Resolver).resolve": "every re-entry carries a rank checked per call site (level++ ≤ labels, depth>0, nomin one-shot, error-count one-shot); fresh states only from the tabled entries; DS/DNSKEY ascent reaches a proper ancestor (semantic, ValidateSigner)",
 	}
 	removed := map[*ssa.Function]bool{}
 	headFn := map[*ssa.Function]string{}
@@ -824,17 +826,17 @@ func c12R5(c *Ctx) {
 	}
 	// residual cycles: allow-table keyed by an anchor member
 	allowed := map[string]string{
-		"(*middleware.forkedCutContext).Value":                     "context parent chain: delegates to the embedded parent context; chain length is finite",
-		"(*middleware.responseWriter).Write":                       "writer-wrapper delegation (type-level): bounded by the number of installed wrappers",
-		"(*middleware.responseWriter).WriteMsg":                    "writer-wrapper delegation incl. failure writers re-entering the inner writer: bounded by the number of installed wrappers",
-		"(*middleware/dnstap.responseWriter).AbortWire":            "writer-wrapper delegation (type-level)",
-		"(*middleware/dnstap.responseWriter).BeginWire":            "writer-wrapper delegation (type-level)",
-		"(*middleware/dnstap.responseWriter).Size":                 "writer-wrapper delegation (type-level)",
-		"(*middleware/dnstap.responseWriter).WireReady":            "writer-wrapper delegation (type-level)",
-		"(*middleware/dnstap.responseWriter).WriteWire":            "writer-wrapper delegation (type-level)",
-		"(*middleware/resolver.Resolver).exchange":                 "self: retried<2 / udp→tcp once / EDNS cleared once (checked below)",
-		"(*middleware/resolver.Resolver).searchCache":              "self: one label shorter per step, or restart after removing the broken entry (checked below)",
-		"(*middleware/resolver.fatalResolverError).Error":          "error wrapper chain (type-level): finite unwrap chain",
+		"(*middleware.forkedCutContext).Value":            "context parent chain: delegates to the embedded parent context; chain length is finite",
+		"(*middleware.responseWriter).Write":              "writer-wrapper delegation (type-level): bounded by the number of installed wrappers",
+		"(*middleware.responseWriter).WriteMsg":           "writer-wrapper delegation incl. failure writers re-entering the inner writer: bounded by the number of installed wrappers",
+		"(*middleware/dnstap.responseWriter).AbortWire":   "writer-wrapper delegation (type-level)",
+		"(*middleware/dnstap.responseWriter).BeginWire":   "writer-wrapper delegation (type-level)",
+		"(*middleware/dnstap.responseWriter).Size":        "writer-wrapper delegation (type-level)",
+		"(*middleware/dnstap.responseWriter).WireReady":   "writer-wrapper delegation (type-level)",
+		"(*middleware/dnstap.responseWriter).WriteWire":   "writer-wrapper delegation (type-level)",
+		"(*middleware/resolver.Resolver).exchange":        "self: retried<2 / udp→tcp once / EDNS cleared once (checked below)",
+		"(*middleware/resolver.Resolver).searchCache":     "self: one label shorter per step, or restart after removing the broken entry (checked below)",
+		"(*middleware/resolver.fatalResolverError).Error": "error wrapper chain (type-level): finite unwrap chain",
 	}
 	used := map[string]bool{}
 	inBig := map[*ssa.Function]bool{}
